@@ -170,7 +170,9 @@ var baseTemplates = []string{
 	"@parent.results.color.value", "@child.results.color.value", "@trigger.type", "@resume.type", "@(now() > contact.created_on)",
 	"@(default(fields.score, 0) + 1)", "@node.visit_count", "@contact.tickets", "email me at bob@nyaruka.com", "@@escaped", "@input",
 	"@(foo", "@contact.fields.missing", "@(json(results))", "@contact.channel.name", "@(if(fields.age > 18, \"adult\", \"minor\"))",
-	"@fields.title", "Your code is @globals.code", "@(upper(fields.title) & globals.code)",
+	"@fields.title", "Your code is @globals.code", "@(upper(fields.title) & globals.code)", "@(input.text * 2)", "@(round(input.text))",
+	// the same assets reached through a parenthesised prefix or a quoted key
+	"@((fields).gender)", "@((globals).org_name)", "@((contact.fields)[\"nick\"])", "@(globals[\"limit\"])",
 }
 
 var stableTemplates = []string{"@input.text", "@contact.uuid", "@globals.org_name", "@globals.limit", "@trigger.params.word", "@(1 / 0)", "hello", "18", "@(upper(input.text))", "@trigger.type"}
@@ -365,7 +367,7 @@ func (g *gen) action(flowType string, flowUUIDs []string, flowNames []string) M 
 		a["field"] = ref(f, "key", "name")
 		switch f["type"] {
 		case "number":
-			a["value"] = rapid.SampledFrom([]string{"23", "@input.text", "", "17.5", "@(fields.age + 1)", "abc", "0", "10.50", "10.50", "007", "1e3"}).Draw(g.t, "numval")
+			a["value"] = rapid.SampledFrom([]string{"23", "@input.text", "", "17.5", "@(fields.age + 1)", "abc", "0", "10.50", "10.50", "007", "1e3", "@(100 / 3)", "12345678901234567890.5", "33.3333333333333333"}).Draw(g.t, "numval")
 		case "datetime":
 			a["value"] = rapid.SampledFrom([]string{"2020-01-01", "@(now())", "", "2000-01-01T00:00:00Z", "yesterday", "@input.text", "2020-05-10 12:30", "2020-05-10 12:30", "10-05-2020 12:30:45", "2020-05-10T12:30:00+02:00"}).Draw(g.t, "dateval")
 		case "state":
@@ -409,7 +411,8 @@ func (g *gen) action(flowType string, flowUUIDs []string, flowNames []string) M 
 		a["name"] = g.resultName()
 		a["value"] = g.template()
 		if rapid.Bool().Draw(g.t, "hascategory") {
-			a["category"] = rapid.SampledFrom([]string{"Yes", "No", "Maybe", "Red"}).Draw(g.t, "category")
+			// a category is fixed text: one that looks like an expression is still that text
+			a["category"] = rapid.SampledFrom([]string{"Yes", "No", "Maybe", "Red", "@fields.gender", "@(1 / 0)"}).Draw(g.t, "category")
 		}
 	case "enter_flow":
 		missingOdds := 14
@@ -817,8 +820,18 @@ func Draw(t *rapid.T, o Opts) *World {
 			pool = DefaultGroupQueries
 		}
 		n := rapid.IntRange(1, 4).Draw(t, "nquerygroups")
+		queryGroups := []M{}
 		for i := 0; i < n; i++ {
-			g.groups = append(g.groups, M{"uuid": UUID("qgroup", i+1), "name": fmt.Sprintf("Query Group %d", i+1), "query": rapid.SampledFrom(pool).Draw(t, "groupquery")})
+			queryGroups = append(queryGroups, M{"uuid": UUID("qgroup", i+1), "name": fmt.Sprintf("Query Group %d", i+1), "query": rapid.SampledFrom(pool).Draw(t, "groupquery")})
+		}
+		// the order of the group assets is arbitrary: query-based groups before, after or between the static ones
+		switch rapid.IntRange(0, 2).Draw(t, "grouporder") {
+		case 0:
+			g.groups = append(g.groups, queryGroups...)
+		case 1:
+			g.groups = append(queryGroups, g.groups...)
+		default:
+			g.groups = append(append(append([]M{}, g.groups[:1]...), queryGroups...), g.groups[1:]...)
 		}
 	}
 	nFlows := rapid.IntRange(1, o.MaxFlows).Draw(t, "nflows")
